@@ -36,7 +36,10 @@ const (
 	ecdsa512 = 521
 )
 
-var ErrNoCertificatePresent = errors.New("no certificate present")
+var (
+	ErrNoCertificatePresent = errors.New("no certificate present")
+	ErrUnsupportedKey       = errors.New("unsupported key")
+)
 
 type Entry struct {
 	KeyID      string
@@ -53,6 +56,19 @@ func (e *Entry) JWK() jose.JSONWebKey {
 		Key:          e.PrivateKey.Public(),
 		Use:          "sig",
 		Certificates: e.CertChain,
+	}
+}
+
+// SupportsJOSE checks whether the key can be used with one of the supported JOSE signature algorithms. If it
+// returns an error, JWK() and JOSEAlgorithm() must not be called, as these panic for unsupported keys.
+func (e *Entry) SupportsJOSE() error {
+	switch {
+	case e.Alg == AlgRSA && (e.KeySize == rsa2048 || e.KeySize == rsa3072 || e.KeySize == rsa4096):
+		return nil
+	case e.Alg == AlgECDSA && (e.KeySize == ecdsa256 || e.KeySize == ecdsa384 || e.KeySize == ecdsa512):
+		return nil
+	default:
+		return fmt.Errorf("%w: %s key of size %d (key id: %s)", ErrUnsupportedKey, e.Alg, e.KeySize, e.KeyID)
 	}
 }
 
